@@ -129,13 +129,28 @@ fn exec_node_step(w: &World, st: &[String]) -> Option<String> {
             w.nodes.borrow_mut().push(n);
             "ok".to_string()
         }
+        // when both operands name the same node (and no provenance is requested) they are THE SAME HANDLE OBJECT half of the
+        // time (`a.connect(&a, e)`), two clones otherwise
         "con" => guarded(|| {
-            node(&st[1]).connect(&node(&st[2]), Et::of(pu64(&st[3])));
+            if st[1] == st[2] && how.is_empty() && pu64(&st[3]) % 2 == 0 {
+                let a = node(&st[1]);
+                a.connect(&a, Et::of(pu64(&st[3])));
+            } else {
+                node(&st[1]).connect(&node(&st[2]), Et::of(pu64(&st[3])));
+            }
             "ok".to_string()
         }),
-        "try" => guarded(|| match node(&st[1]).try_connect(&node(&st[2]), Et::of(pu64(&st[3]))) {
-            Ok(()) => "ok".to_string(),
-            Err(e) => err_str(e),
+        "try" => guarded(|| {
+            let r = if st[1] == st[2] && how.is_empty() && pu64(&st[3]) % 2 == 0 {
+                let a = node(&st[1]);
+                a.try_connect(&a, Et::of(pu64(&st[3])))
+            } else {
+                node(&st[1]).try_connect(&node(&st[2]), Et::of(pu64(&st[3])))
+            };
+            match r {
+                Ok(()) => "ok".to_string(),
+                Err(e) => err_str(e),
+            }
         }),
         "dis" => guarded(|| match node(&st[1]).disconnect(&Kt::of(pu64(&st[2]))) {
             Ok(e) => format!("ok {}", e),
@@ -704,12 +719,18 @@ fn exec_any(w: &World, st: &[String]) -> String {
                 let a = w.nodes.borrow()[pusize(&st[1])].clone();
                 let b = w.nodes.borrow()[pusize(&st[2])].clone();
                 format!(
-                    "cmp eq={} lt={} le={} cmp={:?} pcmp={:?}",
+                    "cmp eq={} lt={} le={} cmp={:?} pcmp={:?} ne={} gt={} ge={} max={} min={}",
                     (a == b) as u8,
                     (a < b) as u8,
                     (a <= b) as u8,
                     a.cmp(&b),
-                    a.partial_cmp(&b)
+                    a.partial_cmp(&b),
+                    (a != b) as u8,
+                    (a > b) as u8,
+                    (a >= b) as u8,
+                    // Ord::max / Ord::min (values): which operand's VALUE is returned
+                    std::cmp::max(a.clone(), b.clone()).value(),
+                    std::cmp::min(a.clone(), b.clone()).value()
                 )
             }),
             other => format!("unknown-step {}", other),
@@ -784,7 +805,7 @@ macro_rules! consume_edges {
                     None => break,
                 }
             },
-            _ => {
+            4 => {
                 let first = it.next();
                 if let Some(e) = first {
                     $cbs.on_edge(&e);
@@ -792,6 +813,38 @@ macro_rules! consume_edges {
                     drop(rest);
                 }
             }
+            // Iterator's PROVIDED methods on an iterator that has already been advanced: nth(0) is next(), step_by(1) walks
+            // with next() once and nth(0) afterwards: the same edges in the same order as the plain loop
+            5 => {
+                if let Some(e) = it.next() {
+                    $cbs.on_edge(&e);
+                    while let Some(e) = it.nth(0) {
+                        $cbs.on_edge(&e);
+                    }
+                }
+            }
+            6 => {
+                if let Some(e) = it.next() {
+                    $cbs.on_edge(&e);
+                    for e in it.step_by(1) {
+                        $cbs.on_edge(&e);
+                    }
+                }
+            }
+            _ => loop {
+                match it.next() {
+                    Some(e) => {
+                        $cbs.on_edge(&e);
+                    }
+                    None => break,
+                }
+                match it.nth(0) {
+                    Some(e) => {
+                        $cbs.on_edge(&e);
+                    }
+                    None => break,
+                }
+            },
         }
     }};
 }
@@ -800,7 +853,7 @@ fn run_loop(w: &World, st: &[String]) -> String {
     let cbs = CbState::new(w, Pred::All);
     let nth = w.loops.get();
     w.loops.set(nth + 1);
-    let variant = (st.iter().map(|t| t.bytes().map(|b| b as usize).sum::<usize>()).sum::<usize>() + nth) % 5;
+    let variant = (st.iter().map(|t| t.bytes().map(|b| b as usize).sum::<usize>()).sum::<usize>() + nth) % 8;
     match st[1].as_str() {
         "adj" => {
             consume_edges!(u.iter(), cbs, variant);
@@ -837,7 +890,7 @@ fn run_search(w: &World, st: &[String]) -> String {
         cbs.on_edge(e);
     };
     macro_rules! terminal {
-        ($b:expr) => {{
+        ($b:expr, $kind:tt) => {{
             let mut b = $b;
             // a configured search object may be run again where the terminal method takes a plain `&mut self`
             // (search_path of every algorithm): it must give the same answer
@@ -867,11 +920,28 @@ fn run_search(w: &World, st: &[String]) -> String {
                     }
                 }};
             }
+            macro_rules! fmt_find {
+                ($r:expr) => {
+                    match $r {
+                        Some(n) => format!("r node {}", n.key()),
+                        None => "r none".to_string(),
+                    }
+                };
+            }
+            macro_rules! find_arm {
+                (plain) => { fmt_find!(b.search()) };
+                // Pfs::search takes &mut self: the object is reused (second run, possibly after a change of the graph), and
+                // search() must keep agreeing with search_path() on the same object
+                (pfs) => {{
+                    let r = again!(fmt_find!(b.search()), fmt_find!(b.search()));
+                    if then_op.is_none() && meth == Meth::None {
+                        let p = b.search_path().is_some();
+                        if p != r.starts_with("r node") { format!("{} SEARCH-AND-SEARCH_PATH-DISAGREE-ON-ONE-OBJECT", r) } else { r }
+                    } else { r }
+                }};
+            }
             match what {
-                "find" => match b.search() {
-                    Some(n) => format!("r node {}", n.key()),
-                    None => "r none".to_string(),
-                },
+                "find" => find_arm!($kind),
                 "path" => again!(fmt_path!(b.search_path()), fmt_path!(b.search_path())),
                 "cycle" => fmt_path!(b.search_cycle()),
                 _ => "bad-what".to_string(),
@@ -881,30 +951,43 @@ fn run_search(w: &World, st: &[String]) -> String {
     // the builder calls are made in an order chosen per step (a pure function of the step text)
     let variant: u32 = st.iter().map(|t| t.bytes().map(|b| b as u32).sum::<u32>()).sum::<u32>() % 4;
     let wrong_key: Kt = Kt::of(999_983);
+    macro_rules! prio_none { ($b:expr) => { $b }; }
+    macro_rules! prio_min { ($b:expr) => { $b.min() }; }
+    macro_rules! prio_max { ($b:expr) => { $b.max() }; }
+    macro_rules! prio_maxmin { ($b:expr) => { $b.max().min() }; }
+    macro_rules! prio_minmax { ($b:expr) => { $b.min().max() }; }
     macro_rules! cfg3 {
-        ($b:expr) => {{
+        ($b:expr, $pr:ident, $kind:tt) => {{
             let mut b = $b;
             match variant {
                 0 | 3 => {
+                    if variant == 0 {
+                        b = $pr!(b);
+                    }
                     if let Some(ref t) = target {
                         b = b.target(t);
                     }
-                    let b = with_method!(b, meth, &mut ff, &mut fe);
-                    terminal!(b)
+                    let mut b = with_method!(b, meth, &mut ff, &mut fe);
+                    if variant == 3 {
+                        b = $pr!(b);
+                    }
+                    terminal!(b, $kind)
                 }
                 1 => {
                     let mut b = with_method!(b, meth, &mut ff, &mut fe);
                     if let Some(ref t) = target {
                         b = b.target(t);
                     }
-                    terminal!(b)
+                    b = $pr!(b);
+                    terminal!(b, $kind)
                 }
                 _ => {
                     if let Some(ref t) = target {
                         b = b.target(&wrong_key).target(t);
                     }
+                    b = $pr!(b);
                     let b = with_method!(b, meth, &mut ff, &mut fe);
-                    terminal!(b)
+                    terminal!(b, $kind)
                 }
             }
         }};
@@ -942,16 +1025,16 @@ fn run_search(w: &World, st: &[String]) -> String {
         }};
     }
     let res = match algo {
-        "bfs" => cfg3!(root.bfs()),
-        "dfs" => cfg3!(root.dfs()),
+        "bfs" => cfg3!(root.bfs(), prio_none, plain),
+        "dfs" => cfg3!(root.dfs(), prio_none, plain),
         "pmin" => match variant {
-            0 => cfg3!(root.pfs()), // Min is the default priority
-            1 => cfg3!(root.pfs().max().min()),
-            _ => cfg3!(root.pfs().min()),
+            0 => cfg3!(root.pfs(), prio_none, pfs), // Min is the default priority
+            1 => cfg3!(root.pfs(), prio_maxmin, pfs),
+            _ => cfg3!(root.pfs(), prio_min, pfs),
         },
         "pmax" => match variant {
-            1 => cfg3!(root.pfs().min().max()),
-            _ => cfg3!(root.pfs().max()),
+            1 => cfg3!(root.pfs(), prio_minmax, pfs),
+            _ => cfg3!(root.pfs(), prio_max, pfs),
         },
         "pre" => ord!(root.order().pre()),
         "post" => ord!(root.order().post()),
